@@ -38,6 +38,12 @@ type Prop struct {
 	Plan        func(tier string, seed int64) []Batch
 	Run         func(r *Run, batch string)
 	Replay      func(r *Run, c json.RawMessage)
+	// HangDetect (opt-in, only for workloads without legitimate quiet periods):
+	// the batch runs in a goroutine and a monitor declares "<ID>:hang:call-never-returned"
+	// when the batch has made no progress (no evaluation, no new case) while every
+	// goroutine with a martian frame has been parked with an identical stack for a
+	// long quiescence window. The witness is the goroutine fingerprint.
+	HangDetect bool
 }
 
 // Run is the per-child reporting context. All methods are goroutine-safe.
@@ -241,7 +247,33 @@ func Main(p *Prop) {
 		r := &Run{Prop: p, Tier: *tier, Seed: *seed, Batch: *batch, Work: *work,
 			out: os.Stdout, classes: map[string]int64{}, counts: map[string]int64{},
 			maxSamp: 3, sigsSeen: map[string]int{}, start: time.Now()}
-		if os.Args[1] == "run" {
+		if os.Args[1] == "run" && p.HangDetect {
+			done := make(chan struct{})
+			go func() { defer close(done); p.Run(r, *batch) }()
+			for {
+				out, fp := Await(func() bool {
+					select {
+					case <-done:
+						return true
+					default:
+						return false
+					}
+				}, AwaitOpts{Grace: 3 * time.Second, Samples: 10, Interval: time.Second, Watchdog: 10 * time.Minute,
+					Activity: func() string {
+						r.mu.Lock()
+						defer r.mu.Unlock()
+						return fmt.Sprintf("%d/%d/%d", r.evals, r.viols, len(r.curCase))
+					}})
+				if out == Happened {
+					break
+				}
+				if out == Stuck && len(MartianGoroutines()) > 0 {
+					r.Violation(p.ID+":hang:call-never-returned", "a call into the code under test never returned: the batch made no progress and every martian goroutine is parked", map[string]interface{}{"goroutines": fp})
+					r.finish()
+					os.Exit(0)
+				}
+			}
+		} else if os.Args[1] == "run" {
 			p.Run(r, *batch)
 		} else {
 			raw, err := os.ReadFile(*file)
